@@ -486,6 +486,7 @@ def run(ctx, tier):
     results = []
     ob = commit.obligations(ctx)
     results += ob['O1'] + ob['O2'] + ob['O3']
+    results += commit.complete_writes(ctx)
     results += creation_rules(ctx)
     results += cow_write_set(ctx)
     results += cow_free_set(ctx)
